@@ -741,9 +741,9 @@ def run(ctx):
     crashes = [0]
 
     def one(c):
-        # after 8 crashed/hung scripts the rest is not run any more (pmap starts every case; a
+        # after 4 crashed/hung scripts the rest is not run any more (pmap starts every case; a
         # change that makes every translation crash or spin must cost seconds, not hours)
-        if crashes[0] >= 8:
+        if crashes[0] >= 4:
             return [], [], {"kind": "skipped"}
         r = common.compare_streams(ctx, c["script"], h_noalign if c.get("noalign") else h, d,
                                    "translate." + c["tag"], timeout=240)
